@@ -169,10 +169,20 @@ def carrier(spec):
         return tuple(carrier(s) for s in spec[1])
     if k == 'x':
         # an input type the library does not support (fault F2): must be rejected
+        if spec[1:] and spec[1] == 'str':
+            return 'zz'                       # not a number in any notation
+        if spec[1:] and spec[1] == 'ragged':
+            return [1, [2, 3]]                # not a rectangular array
         return {'unsupported': 1} if not spec[1:] or spec[1] == 'dict' else {1, 2}
     if k == 'a':
         dt = np.dtype(spec[1])
         vals = [dy(n, e) for n, e in spec[3]]
+        if dt == np.dtype(object):
+            # an array of Python numbers: whole values as int, the others as float (mixed element types)
+            arr = np.empty(len(vals), dtype=object)
+            for i, (v, (n, e)) in enumerate(zip(vals, spec[3])):
+                arr[i] = int(v) if v.denominator == 1 else math.ldexp(n, e)
+            return arr.reshape(tuple(spec[2]))
         if np.issubdtype(dt, np.integer):
             flat = [int(v) for v in vals]
         else:
@@ -206,6 +216,8 @@ def same_container(a, b):
     if type(a) is not type(b):
         return False
     if isinstance(a, np.ndarray):
+        if a.dtype == object or b.dtype == object:
+            return a.dtype == b.dtype and a.shape == b.shape and same_container(a.tolist(), b.tolist())
         return a.dtype == b.dtype and a.shape == b.shape and a.tobytes() == b.tobytes()
     if isinstance(a, (list, tuple)):
         return len(a) == len(b) and all(same_container(x, y) for x, y in zip(a, b))
